@@ -18,6 +18,12 @@ from func_adl.type_based_replacement import (
 FAULT = {"cb_raise": False, "cb_calls": 0}
 
 
+def _raise_now(tag):
+    "True: every callback raises; a string: only callbacks whose tag starts with it."
+    f = FAULT["cb_raise"]
+    return f is True or (isinstance(f, str) and tag.startswith(f))
+
+
 class InjectedCallbackError(RuntimeError):
     pass
 
@@ -25,7 +31,7 @@ class InjectedCallbackError(RuntimeError):
 def _cb(tag):
     def cb(s: ObjectStream, a):
         FAULT["cb_calls"] += 1
-        if FAULT["cb_raise"]:
+        if _raise_now(tag):
             raise InjectedCallbackError(tag)
         return s.MetaData({"m": tag}), a
 
@@ -42,7 +48,7 @@ def _cb_keep(tag):
 
     def cb(s: ObjectStream, a):
         FAULT["cb_calls"] += 1
-        if FAULT["cb_raise"]:
+        if _raise_now(tag):
             raise InjectedCallbackError(tag)
         key = (tag, id(s))
         if key not in _MEMO:
@@ -79,7 +85,7 @@ class Jet1:
 
 def _param_cb(s: ObjectStream, a, param):
     FAULT["cb_calls"] += 1
-    if FAULT["cb_raise"]:
+    if _raise_now("info"):
         raise InjectedCallbackError("info")
     return s.MetaData({"p": str(param)}), a, float
 
@@ -139,7 +145,47 @@ class Evt3:
     def need(self, name: str) -> float: ...  # noqa
 
 
-EVT = [Evt0, Evt1, Evt2, Evt3]
+# variant 4: callbacks that USE the library while the derive that called them is in progress
+# (re-entrancy): they look query metadata up, hash the stream, derive a side stream and keep it
+REENT_LOG = []
+
+
+def _cb_reenter(tag):
+    def cb(s: ObjectStream, a):
+        from func_adl.ast.ast_hash import calc_ast_hash
+        from func_adl.ast.meta_data import lookup_query_metadata
+
+        FAULT["cb_calls"] += 1
+        if _raise_now(tag):
+            raise InjectedCallbackError(tag)
+        h0 = calc_ast_hash(s.query_ast)
+        for k in ("k0", "k1", "title"):
+            lookup_query_metadata(s, k)
+        side = s.Select("lambda q: q")  # a complete derive nested in the outer one
+        ISSUED.append(side)
+        REENT_LOG.append((tag, h0 == calc_ast_hash(s.query_ast)))
+        return s.MetaData({"m": tag}), a
+
+    return cb
+
+
+class Jet4:
+    def pt(self, scale: float = 1.0) -> float: ...  # noqa
+
+    @func_adl_callback(_cb_reenter("jet4_eta"))
+    def eta(self, a: int = 1, b: int = 2) -> float: ...  # noqa
+
+
+@func_adl_callback(_cb_reenter("evt4"))
+class Evt4:
+    def jets(self, name: str = "def") -> Iterable[Jet4]: ...  # noqa
+
+    def met(self) -> float: ...  # noqa
+
+    def need(self, name: str) -> float: ...  # noqa
+
+
+EVT = [Evt0, Evt1, Evt2, Evt3, Evt4]
 
 
 @dataclasses.dataclass
@@ -150,7 +196,7 @@ class DC:
 
 def _fsq_processor(s, a):
     FAULT["cb_calls"] += 1
-    if FAULT["cb_raise"]:
+    if _raise_now("fsq"):
         raise InjectedCallbackError("fsq")
     return s.MetaData({"f": "fsq"}), a
 
@@ -162,6 +208,7 @@ def setup():
     FAULT["cb_calls"] = 0
     ISSUED.clear()
     _MEMO.clear()
+    REENT_LOG.clear()
     register_func_adl_os_collection(JetColl)
     func_adl_parameterized_call(_param_cb)(Evt1.__dict__["info"])
 
